@@ -354,9 +354,76 @@ func c01WideSiblings(c *h.Ctx) {
 
 func int16ID(n int) thrift.FieldID { return thrift.FieldID(n) }
 
+// c01HighByteKeys: map<byte,i32> with keys whose top bit is set. An int derived from a BYTE is unsigned in this
+// library (pinned by the repo's TestCastInt8), so such a key is addressed as 128..255 - by every API alike: GetByInt,
+// GetByPath(IntKey), IntMap, Interface and the paths Foreach hands out (which GetByPath must find again).
+func c01HighByteKeys(c *h.Ctx) {
+	c.Run("high-byte-keys", c.N(300, 6000), func(cs *h.Case) {
+		m := &tref.Val{T: tref.MAP, KT: tref.BYTE, ET: tref.I32}
+		want := map[int]int32{}
+		for i := 1 + cs.R.Intn(12); i > 0; i-- {
+			k := cs.R.Intn(256)
+			if cs.R.Chance(70) {
+				k = 128 + cs.R.Intn(128)
+			}
+			if _, dup := want[k]; dup {
+				continue
+			}
+			v := int32(cs.R.Intn(1 << 20))
+			want[k] = v
+			m.K = append(m.K, tref.Byte(int8(uint8(k))))
+			m.L = append(m.L, tref.Int32(v))
+		}
+		b := tref.Encode(m)
+		tr := h.TrapCopy(b, cs.R.Bool(), true)
+		defer tr.Free()
+		n := generic.NewNode(thrift.MAP, tr.B)
+		cs.Info("bytes", hexs(b))
+		for k, v := range want {
+			if g, err := n.GetByInt(k).Int(); err != nil || int32(g) != v {
+				cs.Viol("read:high-byte-key:GetByInt", "key", k, "got", g, "err", err, "want", v)
+				return
+			}
+			if g, err := n.GetByPath(generic.NewPathIntKey(k)).Int(); err != nil || int32(g) != v {
+				cs.Viol("read:high-byte-key:GetByPath", "key", k, "got", g, "err", err, "want", v)
+				return
+			}
+			cs.Cover("high_byte_key_lookups")
+		}
+		im, err := n.IntMap(&generic.Options{})
+		if err != nil || len(im) != len(want) {
+			cs.Viol("read:high-byte-key:IntMap", "err", err, "got", fmt.Sprint(im))
+			return
+		}
+		for k, v := range want {
+			if g, ok := im[k]; !ok || fmt.Sprint(g) != fmt.Sprint(v) {
+				cs.Viol("read:high-byte-key:IntMap", "key", k, "got", fmt.Sprint(im))
+				return
+			}
+		}
+		seen := 0
+		ferr := n.Foreach(func(p generic.Path, x generic.Node) bool {
+			v, ok := want[p.Int()]
+			g, err := n.GetByPath(p).Int()
+			if !ok || err != nil || int32(g) != v {
+				cs.Viol("read:high-byte-key:Foreach-path", "path", p.String(), "declared", ok, "err", err)
+				return false
+			}
+			seen++
+			return true
+		}, &generic.Options{})
+		if ferr != nil || seen != len(want) {
+			cs.Viol("read:high-byte-key:Foreach", "err", ferr, "seen", seen, "want", len(want))
+			return
+		}
+		cs.Cover("high_byte_key_maps_ok")
+	})
+}
+
 func runC01(c *h.Ctx) {
 	defer c01RootContainers(c)
 	defer c01WideSiblings(c)
+	defer c01HighByteKeys(c)
 	c.Run("reads", c.N(5000, 100000), func(cs *h.Case) {
 		sc, v := c01Schema(cs)
 		root := structType(sc.Root)
